@@ -286,6 +286,15 @@ fn build_users(rng: &mut Rng, n_random: usize) -> Vec<User> {
             RoleM::scoped(&format!("lp-{perm}-s"), lp, &SCOPE_A)
         ));
     }
+    // a role scoped to NO certification authority at all (`cas = []`):
+    // its permissions hold for requests that address no CA only
+    users.push(User::login(
+        "all-s-empty", RoleM::scoped("all-s-empty", ALL, &[])
+    ));
+    users.push(User::login(
+        "rw-s-empty",
+        RoleM::scoped("rw-s-empty", p("login") | readwrite(), &[])
+    ));
     // seeded random subsets
     for i in 0..n_random {
         let mut set = (rng.next() as u32) & ALL;
